@@ -94,6 +94,8 @@ struct Env {
     pending: BTreeSet<u64>,
     committed: BTreeSet<u64>,
     known_segments: BTreeSet<String>,
+    /// false = the case runs under another property's check (no C17 model requests)
+    own: bool,
 }
 
 fn le_dir(desc: bool, a: &K, b: &K) -> bool {
@@ -141,12 +143,24 @@ struct BatchOp {
 }
 
 fn case(ctx: &mut Ctx, case_seed: u64) {
+    case_for(ctx, case_seed, true)
+}
+
+/// `own` = false: the shaped sorted-merge case run under another property's check: oracle checks
+/// only (no C17 model requests), violation keys renamed by the caller
+pub fn case_for(ctx: &mut Ctx, case_seed: u64, own: bool) {
     let mut rng = Rng(case_seed);
     let ty = TYPES[rng.usize_below(TYPES.len())];
     let desc = rng.chance(1, 2);
     // probe (inert unless C17_PROBE_MULTI is set): multi-valued sort fields with disjoint ranges
     let probe_multi = std::env::var("C17_PROBE_MULTI").is_ok();
     let profile = if probe_multi { 3 } else { rng.below(4) };
+    // shaped mode: numeric sort field, disjoint value ranges across segments, and in every segment
+    // a delete set chosen so that the first live document WITHOUT value sits at a doc id >= the
+    // number of live docs (desc: the values before it are deleted; asc: nearly everything is)
+    let late_nulls = !probe_multi && (!own || case_seed % 4 == 0);
+    let ty = if late_nulls { TYPES[rng.usize_below(4)] } else { ty };
+    let profile = if late_nulls { 3 } else { profile };
     let step: i64 = *rng.pick(&[3i64, 4, 10, -3, -4, -10]);
     let mut base: i64 = 0;
     let case = json!({"case_seed": case_seed.to_string(), "type": ty, "desc": desc});
@@ -178,22 +192,38 @@ fn case(ctx: &mut Ctx, case_seed: u64) {
     writer.set_merge_policy(Box::new(NoMergePolicy));
     let mut env = Env {
         index, writer, f, sk, ty, desc, reference: Reference::new(&schema), key_of: HashMap::new(), grp_of: HashMap::new(), next_uid: 1,
-        pending: BTreeSet::new(), committed: BTreeSet::new(), known_segments: BTreeSet::new(),
+        pending: BTreeSet::new(), committed: BTreeSet::new(), known_segments: BTreeSet::new(), own,
     };
+    if late_nulls { ctx.report.count("shaped:late-live-nulls-cases"); }
     ctx.report.count(&format!("type:{ty}:{}", dir_name(desc)));
-    let rounds = 1 + rng.usize_below(4);
+    let rounds = if late_nulls { 2 + rng.usize_below(3) } else { 1 + rng.usize_below(4) };
     for _ in 0..rounds {
         // ---- one transaction = one fresh segment --------------------------------------
         let n = match rng.below(10) { 0 => 1, 1 => 127 + rng.usize_below(4), _ => 2 + rng.usize_below(30) };
         let missing_rate = *rng.pick(&[0u64, 0, 1, 3, 9, 10]);
+        // shaped: which documents of the batch have no value
+        let shaped: Option<Vec<bool>> = if late_nulls {
+            let n_val = 1 + rng.usize_below(6);
+            let n_null = if rng.chance(1, 4) { 0 } else { 1 + rng.usize_below(3) };
+            let mut plan: Vec<bool> = (0..n_val + n_null).map(|i| i >= n_val).collect();
+            rng.shuffle(&mut plan);
+            Some(plan)
+        } else {
+            None
+        };
+        let n = shaped.as_ref().map(|p| p.len()).unwrap_or(n);
         let mut ops: Vec<BatchOp> = vec![];
         let mut batch_uids: Vec<u64> = vec![];
-        for _ in 0..n {
+        for bi in 0..n {
             let uid = env.next_uid;
             env.next_uid += 1;
             let grp = rng.below(4);
             let mut doc = gen_doc(&mut rng, &env.f, uid, grp, "m");
-            let key = if missing_rate > 0 && rng.below(10) < missing_rate {
+            let no_value = match &shaped {
+                Some(plan) => plan[bi],
+                None => missing_rate > 0 && rng.below(10) < missing_rate,
+            };
+            let key = if no_value {
                 K::Missing
             } else {
                 let pr = if profile != 3 && rng.chance(1, 6) { 1 } else { profile };
@@ -221,7 +251,7 @@ fn case(ctx: &mut Ctx, case_seed: u64) {
             batch_uids.push(uid);
             ops.push(BatchOp { add: Some(uid), del_uid: None, del_grp: None });
             // deletes inside the transaction: they must hit only documents added before them
-            if rng.chance(1, 6) {
+            if shaped.is_none() && rng.chance(1, 6) {
                 if rng.chance(1, 2) {
                     let g = rng.below(4);
                     env.writer.delete_term(Term::from_field_u64(env.f.grp, g));
@@ -236,11 +266,40 @@ fn case(ctx: &mut Ctx, case_seed: u64) {
                 }
             }
         }
+        if shaped.is_some() {
+            // predicted doc order of the fresh segment (stable sort, missing first asc / last desc);
+            // draw live sets until the first live doc without value has doc id >= number of live docs
+            let mut order: Vec<usize> = (0..batch_uids.len()).collect();
+            if desc {
+                order.sort_by(|a, b| env.key_of[&batch_uids[*b]].cmp(&env.key_of[&batch_uids[*a]]));
+            } else {
+                order.sort_by(|a, b| env.key_of[&batch_uids[*a]].cmp(&env.key_of[&batch_uids[*b]]));
+            }
+            let mut live: Vec<bool> = vec![true; order.len()];
+            for _try in 0..40 {
+                let cand: Vec<bool> = (0..order.len()).map(|_| rng.chance(1, 2)).collect();
+                let nlive = cand.iter().filter(|x| **x).count();
+                let first_null = (0..order.len()).find(|d| cand[*d] && env.key_of[&batch_uids[order[*d]]] == K::Missing);
+                let has_value = (0..order.len()).any(|d| cand[d] && env.key_of[&batch_uids[order[d]]] != K::Missing);
+                live = cand;
+                if let Some(d) = first_null {
+                    if d >= nlive && has_value { break; }
+                }
+            }
+            for d in 0..order.len() {
+                if !live[d] {
+                    let u = batch_uids[order[d]];
+                    env.writer.delete_term(Term::from_field_u64(env.f.id, u));
+                    env.pending.remove(&u);
+                    ops.push(BatchOp { add: None, del_uid: Some(u), del_grp: None });
+                }
+            }
+        }
         base += step;
         env.writer.commit().unwrap();
         env.committed = env.pending.clone();
         env.reference.sync();
-        if !check_all(ctx, &mut env, "after commit", &case, Some((&batch_uids, &ops))) {
+        if !check_all(ctx, &mut env, "after commit", &case, if own { Some((&batch_uids, &ops)) } else { None }) {
             return;
         }
         // ---- maybe merge ---------------------------------------------------------------
@@ -278,6 +337,9 @@ fn case(ctx: &mut Ctx, case_seed: u64) {
                         segcols.push((format!("{card};{};{al};{}:{}", ks.join(","), col.min_value(), col.max_value()), live));
                     }
                 }
+                if let Some(d) = (0..r.max_doc()).find(|d| !r.is_deleted(*d) && keys[*d as usize] == K::Missing) {
+                    if d >= r.num_docs() { ctx.report.count("merge:source-first-live-null-at-or-beyond-num-docs"); }
+                }
                 runs.push((0..r.max_doc()).filter(|d| !r.is_deleted(*d)).map(|d| keys[d as usize].clone()).collect());
             }
             let res = env.writer.merge(&ids).wait();
@@ -299,6 +361,7 @@ fn case(ctx: &mut Ctx, case_seed: u64) {
                             let mut all: BTreeMap<K, usize> = BTreeMap::new();
                             for k in runs.iter().flatten().chain(keys.iter()) { all.insert(k.clone(), 0); }
                             for (i, (_, v)) in all.iter_mut().enumerate() { *v = i; }
+                            if !own { continue; }
                             let toks: Vec<String> = runs.iter().map(|r| key_tokens(r, &all)).collect();
                             let m = ctx.model.ask(&format!("C17 kmerge {} {}", dir_name(desc), toks.join(" ")));
                             if m != key_tokens(&keys, &all) {
